@@ -99,7 +99,8 @@ func verifLexAll(src []byte, regexChoices bool) {
 			verifAssert(o == n || src[o] == 0, "EOF reported at a position that is neither the end of the source nor a NUL byte")
 			return
 		}
-		verifAssert(o > prev, "token positions are not strictly increasing")
+		// a REGEX token re-reads the DIV (or DIV_ASSIGN) token the parser has just seen: same start position
+		verifAssert(o > prev || (tok == REGEX && o == prev), "token positions are not strictly increasing")
 		verifAssert(verifTokenAt(src, o, tok, val), "the byte at the reported position is not the first byte of the reported token")
 		prev = o
 	}
